@@ -17,6 +17,9 @@ def run(c: Check):
     out2, _ = c.go_harness("internal/filter/hashprefix", "^TestVerifC12Gate$", files=["c12_test.go"],
                            env={"VERIF_ROUNDS": 30 if th else 6}, timeout=1200)
     ev2 = read_ndjson(out2)
+    out3, _ = c.go_harness("internal/filter/internal/rulelist", "^TestVerifC12GateRL$", files=["c12_test.go"],
+                           env={"VERIF_ROUNDS": 12 if th else 3}, timeout=1200)
+    ev2 += read_ndjson(out3)
     for e in ev:
         if e["ev"] == "Refresh" and e["errs"]:
             raise Undecided("a scripted refresh failed: %s" % e["errs"])
